@@ -171,7 +171,7 @@ def _emit(groups):
     return res
 
 
-@rule("QUANT-LOWER", ["C20", "C01", "C06", "C08", "C16"], floor=12)
+@rule("QUANT-LOWER", ["C20", "C01", "C06", "C08", "C16", "C12"], floor=12)
 def quant_lower(ctx):
     """piece(): the (min,max) handed to a repetition operator are those of the quantifier just read
     (? 0,1  * 0,inf  + 1,inf  {n,m} n,m); a nullable body may lower min to 0 but never drop a finite max;
@@ -232,7 +232,8 @@ def quant_lower(ctx):
             g[need] = [False, "piece() has no path for the case %s" % need, b.loc()]
     out = _emit(g)
     for i_ in out:
-        i_.props = ["C06", "C01", "C20", "C16"] if i_.key == "nullable-count-not-iterated" else ["C20", "C01", "C08"]
+        # (a quantifier dropped from a zero-width operand turns an optional position test into a required one: C12)
+        i_.props = ["C06", "C01", "C20", "C16"] if i_.key == "nullable-count-not-iterated" else ["C20", "C01", "C08", "C12"] if i_.key.startswith(("quantifier-dropped|", "identity|")) else ["C20", "C01", "C08"]
     return out
 
 
